@@ -257,3 +257,9 @@ func ClockConcrete() {}
 // that could have continued are explored per path (switches at blocking points and thread exits
 // are free). 0 = unbounded; a negative k = no preemption at all.
 func PreemptionBound(k int) {}
+
+// CanonicalSchedule: under the engine's thread model only ONE schedule of the threads is explored
+// (no preemption; at every blocking point or thread exit the lowest-numbered enabled thread runs),
+// while every ready case of a select is still a choice. For harnesses whose subject is the data
+// flow through concurrent plumbing, not its interleavings; stated in the harness's claim.
+func CanonicalSchedule() {}
